@@ -65,7 +65,8 @@ def main(argv=None):
         print(f"checker crash: cannot load project: {e!r}")
         return 3
     keys = [k for k, c in proj.contracts.items() if pid in c.get("props", [])]
-    results = verify_many(keys, procs=args.procs)
+    # thorough tier: the same obligations with 2.5x the per-obligation solver budget and a longer hard limit per function
+    results = verify_many(keys, procs=args.procs, per_function_timeout=600 if tier == "thorough" else 240, budget_ms=20000 if tier == "thorough" else 8000)
     static = run_static(proj, pid)
 
     baseline_path = os.path.join(VERIF, "baseline.json")
